@@ -3,7 +3,7 @@ CONSTANTS
   NSym = 3
   Keys <- K7
   Vals <- V2
-  CheckKeys <- K7
+  CheckKeys <- C7
   MaxOps = 4
   KeepHist = FALSE
 VIEW view
